@@ -44,6 +44,7 @@ THEOREMS = [
     "Verif.C16.generic_model_is_executable_model",
     "Verif.C16.baum_welch_step_monotone",
     "Verif.C16.baum_welch_monotone",
+    "Verif.C16.baum_welch_step_monotone_zeros",
     "Verif.C16.dwellsChecked_spec",
     "Verif.C16.initCheck_spec",
 ]
@@ -126,7 +127,8 @@ ASSUMPTIONS = [
     "proved to be the executable model the harness runs against the code: generic_model_is_executable_model), instantiated "
     "at the reals with the Gaussian emission table; hypotheses: strictly positive pi and A with totals at most one (exactly "
     "one after one exact update - re-established by the step), positive variances, at least two samples that are not all "
-    "equal (then no re-estimated variance is zero).  Models with zero entries in pi / A: em_monotone (posteriors as sums over "
+    "equal (then no re-estimated variance is zero).  Models with zero entries in pi / A: baum_welch_step_monotone_zeros (the algorithm, "
+    "side conditions: no row of A' is 0/0 and every re-estimated variance is positive), em_monotone (posteriors as sums over "
     "all paths, zero entries allowed, side condition that no re-estimated variance of an occupied state is zero) and "
     "em_monotone_tables / emTables_mono (executable model, emission table kept), joined to the executable model by em_link / "
     "em_link_update.  Not formal: that the doubles of the code follow the exact reals (compared within 1e-9*scale on every run)",
